@@ -15,7 +15,7 @@ def sched_tokens(draw, P):
 
 
 @st.composite
-def op_list(draw, maxlen=8, allow_other=False, allow_singular=False, pmax=4, need_refact=False, prec="d"):
+def op_list(draw, maxlen=8, allow_other=False, allow_singular=False, pmax=4, need_refact=False, prec="d", sym_ok=False):
     ops = []; have = False
     L = draw(st.integers(2, maxlen))
     k = 0
@@ -26,6 +26,7 @@ def op_list(draw, maxlen=8, allow_other=False, allow_singular=False, pmax=4, nee
         else:
             choices = ["REFACT", "REFACT", "REFACT", "SOLVE", "SOLVE", "DESTROY", "GSSV"]
         if allow_other: choices.append("OTHER")
+        if allow_singular: choices.append("GSSVX")
         c = draw(st.sampled_from(choices))
         P = draw(st.sampled_from([p for p in (1, 1, 2, 2, 3, 4) if p <= pmax]))
         u = draw(st.sampled_from([1.0, 1.0, 0.5, 0.1]))
@@ -39,6 +40,11 @@ def op_list(draw, maxlen=8, allow_other=False, allow_singular=False, pmax=4, nee
             ops.append("SOLVE trans=%s nrhs=%d bseed=%d" % (draw(st.sampled_from(["N", "T", "T", "C"] if True else [])), draw(st.sampled_from([1, 2, 3])), draw(st.integers(1, 10 ** 6))))
         elif c == "DESTROY":
             ops.append("DESTROY"); have = False
+        elif c == "GSSVX":
+            ops.append("GSSVX P=%d fact=%s trans=%s symm=%d u=%s nrhs=%d%s" % (P, draw(st.sampled_from(["DOFACT", "EQUILIBRATE"])), draw(st.sampled_from(["N", "T"])),
+                                                                          0, 1.0, draw(st.sampled_from([1, 2])), draw(sched_tokens(P))))
+            if sym_ok and draw(st.booleans()):     # symmetric mode: threshold 0 on a matrix with a dominant diagonal (C16's precondition)
+                ops[-1] = ops[-1].replace("symm=0 u=1.0", "symm=1 u=0.0")
         elif c == "GSSV":
             ops.append("GSSV P=%d nrhs=%d%s" % (P, draw(st.sampled_from([1, 2])), draw(sched_tokens(P))))
         elif c == "OTHER":
@@ -60,15 +66,18 @@ def hist_case(draw, nmax=30, maxlen=8, allow_other=False, allow_singular=False, 
     prec = draw(st.sampled_from(list(precs)))
     rec = draw(mx.recipe(2, nmax, None, ("dominant",), allow_zero_diag=True))
     entries = mx.entries_of(rec, prec)
+    if draw(st.integers(0, 11)) == 0:       # structurally diagonal matrix: empty adjacency structure in the orderings / symmetric mode
+        entries = [e for e in entries if e[0] == e[1]] or entries
+        if len(entries) < rec["n"]: entries = [(i, i, 2.0 + i, 0.0) for i in range(rec["n"])]
+        rec["family"] = "diagonal"
     tun = mx.fix_tunables(draw(mx.tunables))
     s = {"prec": prec, "n": rec["n"], "m": rec["n"], "stype": "NC", "order": draw(st.sampled_from(["0", "1", "2", "3"]))}
     s.update(tun)
-    ops = draw(op_list(maxlen, allow_other, allow_singular, pmax, False, prec))
+    sym_ok = (not rec.get("zero_diag")) and rec.get("permute") in (0, 1)
+    ops = draw(op_list(maxlen, allow_other, allow_singular, pmax, False, prec, sym_ok))
     if user_ws and draw(st.integers(0, 2)) == 0:
         # the whole history runs in a caller-supplied workspace sized from the library's own query (for 4 threads)
         s["ws_factor"] = draw(st.sampled_from([1.5, 2.0, 4.0])); s["ws_P"] = 4
-        ops = [o for o in ops if not o.startswith("GSSV")]
-        if not ops or not ops[0].startswith("FIRST"): ops = ["FIRST P=1 u=1.0"] + ops
     return {"set": s, "entries": entries, "ops": ops, "family": rec["family"]}
 
 
